@@ -335,11 +335,16 @@ def bfs(seed, depth, focus, tier, opnames=None, max_states=None, digests=None):
         for hist in frontier:
             heap, _ = replay(seed, hist, focus, tier)
             ops = enabled_ops(heap, tier, opnames)
+            h2 = None
             for op in ops:
                 if max_states is not None and stats['states'] >= max_states:
                     stats['capped'] = True
                     break
-                h2, _ = replay(seed, hist, focus, tier)
+                if h2 is None:
+                    # fresh real objects for this transition (rebuilt by replaying the history) ...
+                    h2, _ = replay(seed, hist, focus, tier)
+                    n0, groups0, next0 = len(h2.entries), list(h2.groups), h2._next_group
+                    key0 = tuple(K.structure_key(e.arr) for e in h2.entries)
                 v, res = apply(h2, op, focus, tier)
                 stats['transitions'] += 1
                 stats['traces'] += 1
@@ -350,6 +355,7 @@ def bfs(seed, depth, focus, tier, opnames=None, max_states=None, digests=None):
                     for (c, k, m) in v:
                         if len(viol) < 30:
                             viol.append(dict(cat=c, key=k, msg=m, ops=list(hist) + [op]))
+                    h2 = None
                     continue
                 outcomes.add(op[0] + ':' + (res['kind'] if res else '?'))
                 c = canon(h2)
@@ -361,5 +367,16 @@ def bfs(seed, depth, focus, tier, opnames=None, max_states=None, digests=None):
                     stats['states'] += 1
                     if d + 1 < depth:
                         new.append(tuple(hist) + (op,))
+                # ... which are reused for the next transition only if this one provably left the pre-state untouched
+                # (not in-place, nothing replaced, and even the unobservable structure - block order, flags - is unchanged)
+                reusable = (not v and res is not None and res['kind'] in ('new', 'scalar') and n0 < MAX_HEAP
+                            and len(h2.entries) in (n0, n0 + 1)
+                            and tuple(K.structure_key(e.arr) for e in h2.entries[:n0]) == key0)
+                if reusable:
+                    del h2.entries[n0:]
+                    h2.groups = list(groups0)
+                    h2._next_group = next0
+                else:
+                    h2 = None
         frontier = new
     return stats, viol, keys, outcomes
